@@ -96,6 +96,11 @@ def main():
         try:
             logic = registry(logic_name)
             scan(logic)
+            try:
+                from pytableaux.proof import common as _common
+                _common._verif_serial[0] = 0       # same node hashes in a replay of this case alone
+            except Exception:
+                pass
             tab = Tableau(logic, Argument(argstr), max_steps=max_steps)
 
             def check_branches(step, which=None):
